@@ -384,7 +384,7 @@ def job(args):
         return succ, found
 
     k0 = build([])
-    res = explore.replay_bfs(expand, k0, cap=400000)
+    res = explore.replay_bfs(expand, k0, cap=120000 if tier == 'quick' else 1500000)
     viol = {}
     for sig, what, hist in res['violations']:
         v = viol.setdefault(sig, {'what': what, 'replay': {'history': hist, 'bounds': [max_sub, max_req, max_cycles], 'max_reset': max_reset, 'flavor': dr.flavor, 'max_arch': dr.max_arch,
